@@ -20,6 +20,7 @@ def run(e, R, tier):
         S.r_shutdown_api,
         S.r_shutting_down_table,
         L.r_mgr_exit,
+        L.r_iter_snapshot,
         S.r_shutdown_seq,
         S.r_exit_handshake,
         S.r_no_strong_ref,
